@@ -29,9 +29,20 @@ for t in text long shell path; do
   par g++ -std=c++17 $G -c $H/c19_$t.cpp -o $BUILD/g_h_$t.o; GO+=($BUILD/g_h_$t.o)
 done
 par clang++ -std=c++17 -O2 -c -I$MC $MC/mc.cpp -o $BUILD/mc.o
+# re-entrancy run: the igris sources under ThreadSanitizer, two threads on the controlled scheduler (sched.cpp and
+# mc.cpp stay uninstrumented: TSan then sees only what the code under test and the harness threads do)
+T="-O1 -g -fsanitize=thread -fno-omit-frame-pointer $INC"
+TO=()
+for f in $LIBCXX; do o=$(basename $f .cpp); par g++ -std=c++17 $T -c $REPO/$f -o $BUILD/t_$o.o; TO+=($BUILD/t_$o.o); done
+for f in $LIBC; do o=$(basename $f .c); par gcc $T -c $REPO/$f -o $BUILD/t_$o.o; TO+=($BUILD/t_$o.o); done
+par g++ -std=c++17 $T -c $H/c19_wrap.cpp -o $BUILD/t_wrap.o; TO+=($BUILD/t_wrap.o)
+par g++ -std=c++17 $T -c $H/c19_reentrancy.cpp -o $BUILD/t_h.o; TO+=($BUILD/t_h.o)
+par g++ -std=c++17 -O2 -g -I$MC -c $MC/sched/sched.cpp -o $BUILD/sched.o
 parwait
+g++ -fsanitize=thread "${TO[@]}" $BUILD/sched.o $BUILD/mc.o -ldl -lpthread -o $BUILD/c19_tsan
 clang++ -fsanitize=address "${AO[@]}" $BUILD/mc.o -o $BUILD/c19_asan
 g++ "${GO[@]}" $BUILD/mc.o -o $BUILD/c19_guard
 # the short guard run first: the driver hands the time it leaves to the ASan run
 echo "guard $BUILD/c19_guard" > $BUILD/runs.txt
+echo "reentrancy $BUILD/c19_tsan" >> $BUILD/runs.txt
 echo "asan $BUILD/c19_asan" >> $BUILD/runs.txt
